@@ -34,6 +34,24 @@ WANT = [  # (lemma, one-line meaning)
  ("tmult_is_source_call", ""), ("multt_is_source_call", ""), ("tmultt_is_source_call", ""),
  ("mulv_is_source_call", "DGEMV call and zero-initialised result as in matrix.h"), ("tmulv_is_source_call", ""),
  ("mult_sym_is_source_call", "DSYMM(Right,Upper) on the dense copy of the argument"), ("sym_mult_is_source_call", ""), ("sym_mult_sym_is_source_call", ""),
+ ("v_add_is_source_call", "level-1 call sites (daxpy/ddot/dscal/dnrm2/DGER/dcopy/DSPMV) translated from the source: n, alpha, buffers, offsets, strides"),
+ ("v_sub_is_source_call", ""),
+ ("v_iadd_is_source_call", ""),
+ ("v_isub_is_source_call", ""),
+ ("v_dot_is_source_call", ""),
+ ("v_scale_is_source_call", ""),
+ ("v_norm_is_source_call", ""),
+ ("v_outer_is_source_call", ""),
+ ("m_getcol_is_source_call", ""),
+ ("m_getlin_is_source_call", ""),
+ ("m_setcol_is_source_call", ""),
+ ("m_setlin_is_source_call", ""),
+ ("m_iadd_is_source_call", ""),
+ ("m_isub_is_source_call", ""),
+ ("m_dot_is_source_call", ""),
+ ("s_iadd_is_source_call", ""),
+ ("s_isub_is_source_call", ""),
+ ("s_mulv_is_source_call", ""),
  ("value_methods_return_fresh", "every `return` of every value-returning method (origins translated from the source) is a sized-constructor / DEEP_COPY local or an expression of such methods"),
  ("in_place_solver_is_the_only_exception", "SymMatrix::solveLin(Matrix&) returns its non-const argument (documented in-place solve)"),
  ("many_methods_covered", ""),
@@ -64,7 +82,7 @@ out = ["(* C13 -- dense linear algebra (Vector / Matrix / SymMatrix) agrees with
        "   semantics with the flags / dimensions / leading dimensions of the source and reads buffers with checked",
        "   reads: [Ok v] normal return, [Throw] om_assert, [Undef] out-of-bounds access or unwritten result. *)",
        "From OM Require Import Base.Lists Maths.Dense Maths.DenseModel Maths.DenseProofs Maths.Alias Gen.GenBlasCalls Maths.BlasTie Gen.GenReturns Maths.ReturnsProofs.",
-       "Local Open Scope nat_scope.", ""]
+       "Local Open Scope nat_scope.", "Local Notation ln := (@length Z).", ""]
 for name, what in WANT:
     b, s = stmt(name)
     if what: out.append("(* %s *)" % what)
